@@ -102,6 +102,16 @@ pub const META_VARIANTS: [&str; 16] = [
     "<meta http-equiv='' content='charset=t6'>",
 ];
 
+pub const NON_META_VARIANTS: [&str; 7] = [
+    "<link charset=x>",
+    "<link rel=stylesheet charset=utf-8 href=a>",
+    "<base charset=x>",
+    "<basefont charset=x>",
+    "<bgsound charset=x>",
+    "<link http-equiv=content-type content='charset=q'>",
+    "<svg><meta charset=x></svg>",
+];
+
 struct Acc {
     evals: AtomicU64,
     indicators: AtomicU64,
@@ -186,6 +196,14 @@ pub fn main(ctx: &Ctx) -> ! {
             for f in ["<p>", "</head>", "<meta charset=y>", "<table>", "</template>", "<tr>", "<td>x", "x", " y", "<!--c-->", "</table>z", "<col>", "<caption>"] {
                 cases.push((TreeCfg::default(), format!("{p}{m}{f}")));
             }
+        }
+    }
+    // the other elements of the shared "in head" arm, with the attributes that declare an encoding on a meta:
+    // nothing may be raised for them
+    for p in &prefixes {
+        for m in NON_META_VARIANTS {
+            cases.push((TreeCfg::default(), format!("{p}{m}")));
+            cases.push((TreeCfg::default(), format!("{p}{m}<meta charset=y>")));
         }
     }
     if ctx.tier == Tier::Thorough {
